@@ -299,6 +299,13 @@ def _bool_expr(rng, profile, depth, elem_ctx=True):
         op = rng.choice(['<', '<=', '>', '>='])
         l = rng.choice([_attr_ref(rng, profile), N()])
         rr = rng.choice([N(), _attr_ref(rng, profile), _lit(rng, rng.choice(NUM_VALUES + ['abc']))])
+        if profile.get('funcs') and rng.random() < 0.15:
+            # a boolean operand: only a node set is converted to a boolean, then numbers are compared
+            b = rng.choice(['true()', 'false()', 'not(%s)' % _attr_ref(rng, profile), '$t'])
+            if rng.random() < 0.5:
+                l = b
+            else:
+                rr = b
         return '%s%s%s' % (l, rng.choice([op, ' %s ' % op]), rr)
     if r < 0.63:
         return '%s %s %s' % (Bx(), rng.choice(['and', 'or']), Bx())
